@@ -44,6 +44,7 @@ type srv struct {
 	Concurrent bool  `json:"concurrent"` // the further calls start together with the first
 	Traffic    bool  `json:"traffic"`    // children keep sending while the target closes
 	RaceSend   bool  `json:"race_send"`  // a root instance on the target sends to its children while closing
+	Barrier    int   `json:"barrier"`    // > 1: that many Close() calls released together, forced to overlap when possible
 	Script     []mac `json:"script"`     // finish j | timerfire j | timerrelease j | close | newinstance
 }
 
@@ -210,7 +211,20 @@ func runServer(in input) lib.Case {
 		lt = onet.NewLocalTest(suite)
 	}
 	lt.Check = onet.CheckNone
+	// overlapping Close() calls: hold the target's Start() goroutine after it has set IsStarted and
+	// before it waits for the close signal (schedule point server.started, if the tree has it)
+	var startGate *lib.Gate
+	startHeld := false
+	if sv.Barrier > 1 {
+		startGate = sched.Block("server.started", 1, nil)
+	}
 	servers := lt.GenServers(sv.Servers)
+	if startGate != nil {
+		startHeld = startGate.WaitHit(100 * time.Millisecond)
+		if !startHeld {
+			startGate.Release()
+		}
+	}
 	roster := lt.GenRosterFromHost(servers...)
 	tree := roster.GenerateStar()
 	target := servers[0]
@@ -347,6 +361,33 @@ func runServer(in input) lib.Case {
 					}
 					return "ok"
 				})
+			}
+			if sv.Barrier > 1 {
+				var flag int32
+				inClose := countStack("onet/v3.(*Server).Close(")
+				for k := 0; k < sv.Barrier; k++ {
+					name := "close-again"
+					if k == 0 {
+						name = "close"
+					}
+					x := startOp(name, func() string {
+						for atomic.LoadInt32(&flag) == 0 {
+						}
+						return doClose()
+					})
+					if k == 0 {
+						firstClose = x
+					}
+				}
+				time.Sleep(2 * time.Millisecond) // let the goroutines reach the barrier (not an oracle)
+				atomic.StoreInt32(&flag, 1)
+				if startHeld {
+					// every call is inside Close() before Start() is allowed to pick up the signal
+					waitStack(3*time.Second, inClose+sv.Barrier-1, "onet/v3.(*Server).Close(")
+					startGate.Release()
+				}
+				closeTimedOut = !waitCh(firstClose.done, 3*time.Second)
+				continue
 			}
 			inStore := countStack("(*treeStorage).Close", "sync.(*WaitGroup).Wait")
 			firstClose = startOp("close", doClose)
@@ -501,7 +542,7 @@ func runServer(in input) lib.Case {
 	coq := fmt.Sprintf("ServerClose %s %s (mkSobs %s %d %d %s %d %d %s %s)", lib.NatList(o.Insts), lib.List(ms),
 		lib.Bool(o.Returned), o.Instances, o.Late, lib.Bool(o.Panic), o.OpsPending, o.Goroutines,
 		lib.Bool(o.Ports), lib.Bool(o.Db))
-	return lib.Case{Coq: coq, Class: serverClass(in), Obs: o, Nontrivial: sv.Runs > 0,
+	return lib.Case{Coq: coq, Class: serverClass(in), Obs: o, Nontrivial: sv.Runs > 0 || sv.Barrier > 1,
 		Key: fmt.Sprint(in.TCP, *sv)}
 }
 
@@ -530,6 +571,9 @@ func serverClass(in input) string {
 			}
 		}
 	}
+	if in.Srv.Barrier > 1 {
+		tags = append(tags, "closerace")
+	}
 	if len(tags) == 0 {
 		return "server-" + tr + "-clean"
 	}
@@ -548,11 +592,24 @@ func serverCorpus() []interface{} {
 		// instance_after_close_refuted: a protocol start after the close
 		out = append(out, sv(tcp, srv{Servers: 3, Runs: 1, PerChild: 2, Closes: 1,
 			Script: []mac{m0("close"), m1("newinstance", 1)}}))
+		// overlapping Close() calls
+		out = append(out, sv(tcp, srv{Servers: 1, Runs: 0, Closes: 1, Barrier: 2, Script: []mac{m0("close")}}))
+		out = append(out, sv(tcp, srv{Servers: 3, Runs: 1, PerChild: 2, Closes: 1, Barrier: 4, Script: []mac{m0("close")}}))
 		// clean: running instances, traffic in flight, three closes
 		out = append(out, sv(tcp, srv{Servers: 3, Runs: 2, PerChild: 3, Closes: 3, Traffic: true, RaceSend: true,
 			Script: []mac{m0("close")}}))
 	}
 	return out
+}
+
+// genCloseRace: 2-4 Close() calls on one running server, released together (and forced to
+// overlap through the schedule point server.started when the tree has it).
+func genCloseRace(rng *rand.Rand, tcp bool, i int) input {
+	s := srv{Servers: 1, Runs: 0, Closes: 1, Barrier: 2 + rng.Intn(3), Script: []mac{m0("close")}}
+	if i%4 >= 2 {
+		s.Servers, s.Runs, s.PerChild = 3, 1, 1+rng.Intn(3)
+	}
+	return input{Kind: "server", TCP: tcp, Srv: &s}
 }
 
 func genServer(rng *rand.Rand, tcp bool) input {
